@@ -14,7 +14,8 @@
 (*   paging      a finished walk (either protocol, live or through a root) *)
 (*   historic    invoke*historic answers, height given by index/hash/root  *)
 (*   fee         calculatenetworkfee / sendrawtransaction / getrawmempool  *)
-(*   malformed   a request outside the protocol: must still be ANSWERED    *)
+(*   malformed   a request that got no answer at all (class "wellformed":   *)
+(*               judged), and requests outside the protocol (informational)*)
 (* `ret` says whether the node's configuration retains height h: the       *)
 (* Sound predicates (an answer, if given, is right) hold for every         *)
 (* request, the Complete ones (an answer IS given) only where ret.         *)
@@ -106,7 +107,9 @@ Judge(e) ==
             \cup NameIf(e.pool_f /\ ~e.pool_fm1, "PoolReflects")
             \cup NameIf(e.f_client = e.size * e.fpb + e.attr + e.wit, "i:FeeFormula")
       [] e.event = "malformed" ->
-            NameIf(e.answered, "HandlerAnswers")
+            \* a request of the protocol ("wellformed") must be ANSWERED (result or error); what a handler does with a
+            \* request outside the protocol (negative count, ...) is not the statement's subject: informational
+            NameIf(e.answered, IF e.class = "wellformed" THEN "HandlerAnswers" ELSE "i:MalformedAnswered")
       [] OTHER -> {}
 
 Ctx(e) == [event |-> e.event,
